@@ -263,7 +263,8 @@ def _one(inp: Dict[str, Any], pids: PayloadIds, t0: float, opts: Dict[str, Any],
             stage_hook=(lambda nm, s: hook(nm, s, inp)) if hook else None,
             stage_states=bool(opts.get("stages", True)) or True,
             names=bool(opts.get("names", False)),
-            reload_between=bool(opts.get("reload", False)) and bool(inp.get("reload", True)),
+            reload_between=bool(opts.get("reload", False)) and opts.get("reload") != "fork" and bool(inp.get("reload", True)),
+            fork_between=opts.get("reload") == "fork" or bool(inp.get("fork")),
             via_subgraphs=bool(inp.get("via_subgraphs")),
             default_recursion_limit=bool(inp.get("giant")),
             probe_names=bool(inp.get("probe_names")),
